@@ -34,7 +34,7 @@ from hypothesis import strategies as st
 import nfc.tag
 import nfc.tag.tt3_sony
 
-from vlib import ref_felica, simfelica, simtags, tagdev, vsched
+from vlib import ref_felica, ref_tlv, simfelica, simtags, tagdev, vsched
 from vlib.engine import HarnessError, Leg, Violation, unexpected
 from props import tagcommon as tc
 
@@ -256,6 +256,144 @@ def run(case, ctx):
     if n >= 2 and old != new and L > 0:
         ctx.nontrivial()
     ctx.note({"writes": n, "cuts": len(ks), "old": len(old), "new": L})
+
+
+# message lengths relative to the tag layout ---------------------------------
+def edge_lengths(lay):
+    """message lengths whose LAST byte lies at a distinguished place of the
+    layout ``lay`` (ref_tlv.layout() / build() info: "avail" = the usable
+    addresses from the NDEF TLV's tag byte to the end of the data area).
+    -> {length: [labels]}.  With idx = position of the last message byte in
+    "avail" (a message of L bytes has a 2 or 4 byte TLV header, idx = L+1 or
+    L+3) and j = position of the last usable byte in front of a reserved /
+    lock byte range of g bytes that lies inside the area:
+      range-2 range-1 range-0   idx = j-2, j-1, j (ends 2, 1, 0 bytes before)
+      range+1 range+2           idx = j+1, j+2 (the byte that had to jump over
+                                the range, and the next; a writer that does
+                                not skip puts byte j+1 on the first range byte)
+      range-unskipped-last/-after   idx = j+g, j+g+1: without skipping the
+                                message would end on the last range byte /
+                                just behind the range
+      end-2 end-1 end-0         the same in front of the end of the data area
+                                (terminator fits for the first two only)
+      length-format             253..256, both sides of the 1 / 3 byte format
+    """
+    avail = lay["avail"]
+    n = len(avail)
+    cap = ref_tlv.true_capacity(lay)
+    out = {}
+
+    def add(idx, label):
+        for L in (idx - 1, idx - 3):
+            if 0 < L <= cap and L + (2 if L < 255 else 4) - 1 == idx:
+                if label not in out.setdefault(L, []):
+                    out[L].append(label)
+    for j in range(1, n - 1):
+        g = avail[j + 1] - avail[j] - 1
+        if g > 0:
+            for r in (-2, -1, 0, 1, 2):
+                add(j + r, "range%s%d" % ("+" if r > 0 else "-", abs(r)))
+            add(j + g, "range-unskipped-last")
+            add(j + g + 1, "range-unskipped-after")
+    for r in (-2, -1, 0):
+        add(n - 1 + r, "end-%d" % -r)
+    for L in (253, 254, 255, 256):
+        if L <= cap:
+            out.setdefault(L, []).append("length-format")
+    return out
+
+
+def interior_ranges(lay):
+    a = lay["avail"]
+    return len([j for j in range(1, len(a) - 1) if a[j + 1] != a[j] + 1])
+
+
+def _ctrl_at(t, addr, nbytes, odd_bits):
+    """lock control (t=1) / memory control (t=2) TLV description for
+    ``nbytes`` bytes from (about) ``addr``: the smallest page size that can
+    address it, byte offset cut down to the 4 bits the field has"""
+    bpp = 4
+    while (addr >> bpp) > 15:
+        bpp += 1
+    c = {"t": t, "page": addr >> bpp, "offs": min(addr & ((1 << bpp) - 1), 15),
+         "bpp": bpp}
+    if t == 1:                          # size in bits, 0 = 256
+        c["size"] = (min(nbytes, 32) * 8 - odd_bits) & 0xFF
+    else:                               # size in bytes, 0 = 256
+        c["size"] = nbytes & 0xFF
+    return c
+
+
+@st.composite
+def edge_case(draw, tier):
+    """(Type 1 / Type 2 layout, old, new): static and dynamic Type 1
+    memories, Type 2 memories of 48..1040 bytes, 0..2 lock / memory control
+    TLVs whose byte range lies INSIDE the message area (behind the NDEF TLV
+    header, by construction; mostly near enough for a 1-byte-length message
+    to reach it); old and new length drawn from edge_lengths() of the layout
+    the reference model finds in the built image"""
+    kind = draw(st.sampled_from(["t1t", "t1t", "t1t", "t2t", "t2t"]))
+    if kind == "t1t":
+        size = draw(st.sampled_from([14, 14, 14, 15, 16, 31, 40, 63, 63, 63,
+                                     80, 127]))
+        desc = {"kind": "t1t", "size": size, "extra": 0,
+                "hr1": 0x4C if size == 63 else draw(st.sampled_from(
+                    [0x00, 0x48])),
+                "nulls": draw(st.integers(0, 9))}
+    else:
+        desc = {"kind": "t2t",
+                "size": draw(st.sampled_from([6, 12, 18, 32, 36, 60, 110,
+                                              126, 130])),
+                "extra": draw(st.sampled_from([0, 8])),
+                "nulls": draw(st.integers(0, 7))}
+    desc["filler"] = draw(st.sampled_from([0x00, 0xFF, 0x03]))
+    start, end, _, _ = ref_tlv.geometry(desc)
+    nctrl = draw(st.sampled_from([0, 1, 1, 1, 2, 2]))
+    # first address behind the header of the NDEF TLV when nothing in front
+    # of it is reserved
+    lo = start + 5 * nctrl + desc["nulls"] + 2
+    ctrl = []
+    for _ in range(nctrl):
+        addr = draw(st.one_of(st.integers(lo, min(lo + 70, end - 1)),
+                              st.integers(lo, min(lo + 70, end - 1)),
+                              st.integers(lo, end - 1)))
+        ctrl.append(_ctrl_at(
+            draw(st.sampled_from([1, 2, 2])), addr,
+            draw(st.one_of(st.integers(1, 12),
+                           st.sampled_from([1, 2, 4, 8, 16, 24]))),
+            draw(st.sampled_from([0, 0, 3, 7]))))
+    desc["ctrl"] = ctrl
+    probe = ref_tlv.build(desc)
+    if probe is None:                   # (the ranges left no room)
+        desc["ctrl"], desc["nulls"] = [], 0
+        probe = ref_tlv.build(desc)
+    marks = edge_lengths(ref_tlv.layout(probe[0], kind))
+    lens = sorted(marks)
+    # (an old message also ends on an edge, is empty, or is short)
+    old = draw(st.one_of(st.sampled_from(lens), st.sampled_from(lens),
+                         st.sampled_from([0, 1, 10])))
+    new = draw(st.sampled_from(lens))
+    return {"tag": desc, "old": ["abs", old],
+            "old_seed": draw(st.integers(0, 255)), "new": ["abs", new],
+            "new_seed": draw(st.integers(0, 255)),
+            "cuts": "all" if tier == "thorough" else "edges"}
+
+
+def run_edges(case, ctx):
+    b = tc.build(case["tag"], case["old"], case["old_seed"])
+    if b is None:
+        ctx.label("layout-without-room")
+        return
+    lay = ref_tlv.layout(bytes(b.tag.mem), b.kind)
+    if lay is None:
+        raise HarnessError("reference model finds no NDEF TLV in the image")
+    marks = edge_lengths(lay)
+    for m in marks.get(case["new"][1], ["not-an-edge"]):
+        ctx.label("new-ends:" + m)
+    for m in marks.get(case["old"][1], ["elsewhere"]):
+        ctx.label("old-ends:" + m)
+    ctx.label("ranges-inside-the-message-area:%d" % interior_ranges(lay))
+    return run(case, ctx)
 
 
 # a write that follows a failed write ----------------------------------------
@@ -842,6 +980,30 @@ LEGS = [
              "looked at an image that is neither the first nor the last."),
     _leg("t2t", st.one_of(t2t_big(), t2t_big(), t2t_desc()), 400, 4000),
     _leg("t1t", st.one_of(t1t_big(), t1t_big(), tc.t1t_desc()), 300, 4000),
+    Leg("layout-edges", run=run_edges, gen=edge_case, quick=480,
+        thorough=6000, shards_quick=6, shards_thorough=16, nt_floor=0.15,
+        rule="Type 1 (static 120 byte and dynamic 128..1024 byte memories, "
+             "Topaz-512 included) and Type 2 (48..1040 byte data area) "
+             "layouts with 0..2 lock / memory control TLVs whose byte range "
+             "lies INSIDE the message area (constructed behind the NDEF TLV "
+             "header, mostly within reach of a 1-byte-length message) and "
+             "0..9 NULL TLVs; the OLD and the NEW message length are taken "
+             "from the layout the reference model (ref_tlv.layout) finds in "
+             "the image: for every reserved / lock byte range inside the "
+             "area and for the end of the data area the lengths whose last "
+             "byte is 2, 1, 0 usable bytes in front of it, the first and "
+             "second byte behind the range (= on the first range byte for a "
+             "writer that does not skip), on the last range byte / just "
+             "behind the range if nothing were skipped, in the 1-byte and "
+             "in the 3-byte length format, plus 253..256 (old also 0, 1, "
+             "10).  Every cut point k=0..n of the write is read by a fresh "
+             "reader and the reference reader as in the t1t / t2t legs "
+             "(quick tier: all k when n<=40, else first/last 14 + 12 in "
+             "between; k=n, the state after the complete write, always); "
+             "oracle: old / new / empty / nothing readable, k=0 old, k=n "
+             "new.  non-trivial = n>=2, old!=new, new non-empty (every new "
+             "length is such an edge length by construction; labels "
+             "new-ends:* say which)."),
     _leg("t3t", tc.t3t_desc("t3t"), 300, 4000),
     _leg("t3e", tc.t3t_desc("t3e"), 200, 3000),
     _leg("t4t", t4t_desc(), 300, 4000, t4_len()),
